@@ -153,6 +153,9 @@ func checkCmd(args []string) int {
 		if c.Inline && len(c.Ensures)+len(c.Requires) == 0 && len(c.Modifies) == 0 {
 			continue // loop specifications of an inlined function: checked in its callers
 		}
+		if fn := e.funcsByName[c.Key]; fn != nil && fn.Parent() != nil && c.Inline {
+			continue // a callback contract: checked where the callback is used (e.g. the walk model)
+		}
 		t1 := time.Now()
 		r := e.verifyFunction(c, s.init)
 		execS += time.Since(t1).Seconds()
@@ -204,7 +207,7 @@ func checkCmd(args []string) int {
 			}
 		}
 	}
-	pool := make(chan struct{}, 5)
+	pool := make(chan struct{}, 7)
 	for _, j := range jobs {
 		e.renderScripts(j.obls, j.r.Axioms, j.r.Assumes, j.r.AssumePCs)
 	}
